@@ -637,7 +637,7 @@ func VReplayCat(task engine.SeqTask) (res engine.SeqResult) {
 	vWorldMaxHists = 150
 	w := vWorld()
 	h := w.NewHist()
-	allNames := []string{"A", "B"}
+	allNames := []string{"A", "B", "C"}
 	variants := map[string]int{}
 	pubNs := map[string][]string{}
 	chk := &VCheck{H: h}
@@ -730,6 +730,28 @@ func VReplayCat(task engine.SeqTask) (res engine.SeqResult) {
 				chk.fail("C19:setns-rejected", err.Error(), nil)
 			}
 			pubNs[op.DS] = ns
+		case "copymeta":
+			// somebody keeps a copy of the catalogue: the meta-entity of op.DS is stored (same id) in dataset op.To
+			_, toExists := h.M.Datasets[op.To]
+			if !exists || !toExists {
+				res.Skip, res.Key = true, "skip"
+				return
+			}
+			info, _ := w.Store.NamespaceManager.GetDatasetNamespaceInfo()
+			meta, err := w.Store.GetEntity(info.DatasetPrefix+":"+h.DsName(op.DS), []string{datasetCore}, true)
+			if err != nil || meta == nil {
+				chk.fail("C19:setns-nometa", fmt.Sprintf("meta-entity of %s not found: %v", op.DS, err), nil)
+				break
+			}
+			cp := NewEntity(meta.ID, 0)
+			for k, v := range meta.Properties {
+				cp.Properties[k] = v
+			}
+			if err := w.Dsm.GetDataset(h.DsName(op.To)).StoreEntities([]*Entity{cp}); err != nil {
+				chk.fail("C19:write-rejected", err.Error(), nil)
+			}
+			// (the copy counts as one distinct id stored in op.To)
+			h.M.Datasets[op.To].NoteForeignID(meta.ID)
 		case "setns2":
 			// one batch into core.Dataset carrying two meta-entities: the one of op.To as it is, then the one of op.DS with
 			// new public namespaces (a client that posts the whole catalogue back with one entry edited)
@@ -949,6 +971,21 @@ func init() {
 			depth, budget = 7, 2400
 		}
 		engine.RunSeq(r, engine.SeqSpec{Name: "c19-seq", WorkerArgs: []string{"worker", "cat"}, Alphabet: vOpsJSON(alpha), Depth: depth, Budget: secs(budget)})
+		// a copy of a meta-entity kept in another dataset (same id), then the original dataset is renamed / deleted
+		{
+			ca := []VOp{
+				{K: "create", DS: "A"}, {K: "create", DS: "A", N: 1}, {K: "create", DS: "B"},
+				{K: "batch", DS: "A", Ents: []VEnt{{"e1", pi("v1")}, {"e2", pi("v1")}}},
+				{K: "copymeta", DS: "A", To: "B"},
+				{K: "rename", DS: "A", To: "C"}, {K: "delete", DS: "A"},
+				{K: "batch", DS: "C", Ents: []VEnt{{"e3", pi("v1")}}},
+			}
+			cd, cb := 6, 200
+			if !r.Quick() {
+				cd, cb = 7, 1200
+			}
+			engine.RunSeq(r, engine.SeqSpec{Name: "c19-catalogue-copy", WorkerArgs: []string{"worker", "cat"}, Alphabet: vOpsJSON(ca), Depth: cd, Budget: secs(cb)})
+		}
 		// one long history: a catalogue beyond the page size the manager uses internally (1000)
 		{
 			n := 1003
